@@ -296,6 +296,57 @@ func postHCL(b *hclwrite.Body, p Post) {
 // locals block through merge() and request lists are built with concat().
 func (d Doc) HCL(locals bool) string { return d.hcl(locals, false) }
 
+// exprTokens parses an HCL expression given as text.
+func exprTokens(expr string) hclwrite.Tokens {
+	f, diags := hclwrite.ParseConfig([]byte("x = "+expr+"\n"), "", hcl.InitialPos)
+	if diags.HasErrors() {
+		panic(diags.Error())
+	}
+	return f.Body().GetAttribute("x").Expr().BuildTokens(nil)
+}
+
+// identity expressions over a list local, one per documented collection function that can express one
+func listExpr(i int, name string, n int) string {
+	switch i % 7 {
+	case 0:
+		return "coalescelist([], local." + name + ")"
+	case 1:
+		return "reverse(reverse(local." + name + "))"
+	case 2:
+		return "flatten([local." + name + "])"
+	case 3:
+		return fmt.Sprintf("slice(local.%s, 0, %d)", name, n)
+	case 4:
+		return "concat([], local." + name + ", [])"
+	case 5:
+		return "compact(local." + name + ")"
+	}
+	var el []string
+	for k := 0; k < n; k++ {
+		el = append(el, fmt.Sprintf("element(local.%s, %d)", name, k))
+	}
+	return "[" + strings.Join(el, ", ") + "]"
+}
+
+func mapExpr(i int, name string, keys []string) string {
+	switch i % 3 {
+	case 0:
+		return "merge({}, local." + name + ")"
+	case 1:
+		if len(keys) == 0 {
+			return "merge(local." + name + ", {})"
+		}
+		return "zipmap(keys(local." + name + "), values(local." + name + "))"
+	}
+	var el []string
+	for _, k := range keys {
+		el = append(el, fmt.Sprintf("%q = lookup(local.%s, %q, \"missing\")", k, name, k))
+	}
+	return "{" + strings.Join(el, ", ") + "}"
+}
+
+var fnMode bool
+
 // redefine: the first locals block carries stale values which the second block defines again: the
 // latest definition of a local is the one in force.
 func (d Doc) hcl(locals, redefine bool) string {
@@ -348,7 +399,14 @@ func (d Doc) hcl(locals, redefine bool) string {
 		blk := b.AppendNewBlock("request", []string{r.Name}).Body()
 		blk.SetAttributeValue("method", cty.StringVal(r.Method))
 		blk.SetAttributeValue("uri", cty.StringVal(r.URI))
-		if locals {
+		if locals && fnMode {
+			var ks []string
+			for k := range r.Headers {
+				ks = append(ks, k)
+			}
+			sort.Strings(ks)
+			blk.SetAttributeRaw("headers", exprTokens(mapExpr(i+d.fnSalt(), fmt.Sprintf("h%d", i), ks)))
+		} else if locals {
 			blk.SetAttributeRaw("headers", hclwrite.TokensForFunctionCall("merge", hclwrite.TokensForTraversal(trav("local", "empty")), hclwrite.TokensForTraversal(trav("local", fmt.Sprintf("h%d", i)))))
 		} else {
 			blk.SetAttributeValue("headers", ctyMap(r.Headers))
@@ -394,7 +452,9 @@ func (d Doc) hcl(locals, redefine bool) string {
 		if s.MinWait != nil {
 			blk.SetAttributeValue("min_waiting_time", cty.NumberIntVal(*s.MinWait))
 		}
-		if locals {
+		if locals && fnMode && len(s.Requests) > 0 {
+			blk.SetAttributeRaw("requests", exprTokens(listExpr(i+d.fnSalt(), fmt.Sprintf("r%d", i), len(s.Requests))))
+		} else if locals {
 			blk.SetAttributeRaw("requests", hclwrite.TokensForFunctionCall("concat", hclwrite.TokensForTraversal(trav("local", fmt.Sprintf("r%d", i))), hclwrite.TokensForValue(cty.EmptyTupleVal)))
 		} else {
 			blk.SetAttributeValue("requests", ctyList(s.Requests))
@@ -402,6 +462,17 @@ func (d Doc) hcl(locals, redefine bool) string {
 	}
 	return string(f.Bytes())
 }
+
+// fnSalt varies which function is used where from one document to the next.
+func (d Doc) fnSalt() int {
+	n := len(d.Requests)*3 + len(d.Calls)*5
+	for _, s := range d.Scenarios {
+		n += len(s.Requests)
+	}
+	return n + fnTick
+}
+
+var fnTick int
 
 func trav(root string, attrs ...string) hcl.Traversal {
 	t := hcl.Traversal{hcl.TraverseRoot{Name: root}}
@@ -576,8 +647,13 @@ func compare(d Doc) (key string, err error) {
 			}
 		}
 	}
-	for vi, variant := range []string{"plain", "locals", "locals-redefined", "PLAIN.HCL"} {
-		text := d.hcl(vi == 1 || vi == 2, vi == 2)
+	for vi, variant := range []string{"plain", "locals", "locals-redefined", "PLAIN.HCL", "functions"} {
+		fnMode = vi == 4
+		if fnMode {
+			fnTick++
+		}
+		text := d.hcl(vi == 1 || vi == 2 || vi == 4, vi == 2)
+		fnMode = false
 		name := "/d.hcl"
 		if vi == 3 {
 			// the syntax is chosen by the file extension in any letter case
@@ -745,12 +821,14 @@ func httpDocs(thorough bool, fn func(name string, d Doc)) {
 		mk(func(d *Doc) { d.Sources[0].Variables = map[string]string{"b": s} })
 		mk(func(d *Doc) { d.Requests[0].Posts[2].Headers = map[string]string{"H": s} })
 		mk(func(d *Doc) { d.Requests[0].Posts[2].Body = []string{s} })
-		mk(func(d *Doc) { d.Requests[0].Posts[0].Mapping = map[string]string{"token": "$." + strings.Map(func(r rune) rune {
-			if r == '\n' || r == '"' || r == '\'' || r == ' ' || r == '[' || r == '{' {
-				return '_'
-			}
-			return r
-		}, s)} })
+		mk(func(d *Doc) {
+			d.Requests[0].Posts[0].Mapping = map[string]string{"token": "$." + strings.Map(func(r rune) rune {
+				if r == '\n' || r == '"' || r == '\'' || r == ' ' || r == '[' || r == '{' {
+					return '_'
+				}
+				return r
+			}, s)}
+		})
 		if s != "" && !strings.ContainsAny(s, "\n") {
 			mk(func(d *Doc) {
 				d.Requests[0].Name = s
